@@ -21,7 +21,7 @@ RULE = (
     "from {4, 8, 13, 14}, then up to 12 operations over groups {1..5}: startup(member_of), subscribe(g), unsubscribe(g), "
     "each table write answered ok / rejected with a defined or undefined status / not answered (command timeout). "
     "Exhaustive part: every operation sequence of length <= L (quick 3, thorough 4) over groups {1,2,3} x 3 answers for "
-    "sizes 0..3 with up to 3 initial contents; a 'restart' operation (fresh Multicast object re-scanning the table) may occur anywhere. Non-trivial = a rejected or timed-out write is followed by a later subscribe; "
+    "sizes 0..3 with up to 3 initial contents; a 'restart' operation (fresh Multicast object re-scanning the table) may occur anywhere, and two or three calls for different groups may be in flight at once. Non-trivial = a rejected or timed-out write is followed by a later subscribe; "
     "distinct by history."
 )
 ASSUMPTIONS = [
@@ -111,6 +111,31 @@ async def scenario(loop, plan, r):
             mc = Multicast(ezsp)
             await mc._initialize()
             r.cls("restart")
+            invariants(mc, sim, r, where)
+            if r.violations:
+                return
+            continue
+        if kind == "par":
+            # two calls for DIFFERENT groups in flight at the same time (e.g. two group memberships being restored)
+            subs = op[1]
+            sim.answers = [(a if a in ("ok", "timeout") else ["rej", a[1]]) for _, _, a in subs]
+            had_fail = any(a != "ok" for _, _, a in subs)
+
+            async def one(k, g):
+                try:
+                    return await (mc.subscribe(g) if k == "sub" else mc.unsubscribe(g))
+                except asyncio.TimeoutError:
+                    return "timeout"
+
+            res = await asyncio.gather(*[one(k, g) for k, g, _ in subs], return_exceptions=True)
+            for x in res:
+                if isinstance(x, Exception):
+                    r.bad(f"C15:raises:{type(x).__name__}", f"{where}: {x!r}")
+                    return
+            sim.answers = []
+            r.cls("concurrent-calls")
+            if had_fail:
+                had_failure = True
             invariants(mc, sim, r, where)
             if r.violations:
                 return
@@ -214,6 +239,9 @@ def plans(draw):
         kind = draw(st.sampled_from(["sub", "sub", "sub", "unsub", "unsub", "unsub", "startup", "restart"]))
         if kind == "restart":
             ops.append(["restart"])
+        elif draw(st.integers(0, 5)) == 0:
+            gs = draw(st.lists(st.integers(1, 5), min_size=2, max_size=3, unique=True))
+            ops.append(["par", [[draw(st.sampled_from(["sub", "sub", "unsub"])), g, draw(answer)] for g in gs]])
         elif kind == "startup":
             gs = draw(st.lists(st.integers(1, 5), max_size=4, unique=True))
             ops.append(["startup", gs, draw(st.lists(answer, max_size=4))])
